@@ -237,7 +237,8 @@ class extract_visitor(NodeVisitor):
                 else:
                     fh.add_name(AssignedName(h.name, body_loc(h.body), np(h), h.type))  # type: ignore[arg-type]
             if h.type:
-                self.visit(h.type)
+                # evaluated when an exception arrives: after some or all of the try body
+                fh = self.visit_in_flow(h.type, fh)
             handlers.append(self.visit_in_flow(h.body, fh))
 
         orelse = self.visit_in_flow(node.orelse,
